@@ -11,11 +11,14 @@ from vlib.gen import graphs as H
 
 PID = "C10"
 TITLE = "Spanning trees and forests span, are acyclic, and respect exclusions"
-LEAN_MODULES = ["Mouette.Props.C10", "Mouette.Props.C10Kruskal", "Mouette.Props.C10KruskalMin", "Mouette.Props.C10Orient"]
+LEAN_MODULES = ["Mouette.Props.C10", "Mouette.Props.C10Kruskal", "Mouette.Props.C10KruskalMin", "Mouette.Props.C10Orient",
+                "Mouette.Props.C10Bridge"]
 REQUIRED_THEOREMS = ["bfs_terminates", "parent_children_consistent", "tree_edges_are_adjacencies", "edge_count",
                      "reached_eq_component", "bfs_min_hops", "traverse_once_parent_first", "forest_one_tree_per_component",
                      "kruskal_spanning_forest", "kruskal_sort_sorted", "kruskal_minimum", "orient_spec", "kruskal_forest",
-                     "mst_orientation"]
+                     "mst_orientation", "bridge_bstep_edge", "bridge_bstep_face", "bridge_bstep_cell", "bridge_avoid_edge",
+                     "recompute_eq_fresh_edge", "recompute_eq_fresh_mst", "recompute_eq_fresh_face", "recompute_eq_fresh_cell",
+                     "forest_recompute_eq_fresh", "source_bstep_preserves_invariant"]
 TRUSTED = [
     "Lean 4.33.0 kernel; axioms ⊆ {propext, Classical.choice, Quot.sound}",
     "hand-written model Mouette/Model/Trees.lean (BFS with (parent,child) queue and seen flags, children/edges loop, traverse, "
@@ -29,9 +32,12 @@ ASSUMPTIONS = ["agreement model/implementation only on the cases of this run",
                "Kruskal: spanning forest, minimality (kruskal_minimum, exchange bound of the graphic matroid by component counting) and "
                "the orientation of the root's component (mst_orientation) are theorems on top of the C20 union-find refinement lemmas",
                "forest theorem assumes an undirected admissible adjacency (checked by the driver on every input: field H)"]
-RULE = ("random polylines / manifold surfaces / tet meshes (incl. disconnected), every tree class, explicit and default (patched random) "
-        "roots, random exclusion sets (edge pairs / face triples, 0-40% of the connectors), avoid_boundary on/off, MST weights "
-        "one/length/dict/attr with ties, forests; non-trivial = distinct case whose tree reaches at least 2 elements")
+RULE = ("random polylines / manifold surfaces / tet meshes (incl. disconnected), every tree class, explicit (int or numpy integer) and "
+        "default (patched random) roots, random exclusion sets (edge pairs / face triples, 0-40% of the connectors) handed over as set / "
+        "frozenset / list / tuple / ndarray, avoid_boundary on/off, MST weights one/length/dict/attr with float / int / numpy-int / "
+        "fractional / negative values and ties, forests; histories: compute() or obj() called again on the computed tree/forest (20%), "
+        "other trees built on the same mesh object before (15%), every tree traversed twice; non-trivial = distinct case whose tree "
+        "reaches at least 2 elements")
 
 _CACHE = {}
 
@@ -64,6 +70,15 @@ def cases(rng, tier):
             case["avoid_boundary"] = rng.random() < 0.3
             case["w"] = rng.choice(["one", "length", "length", "dict", "attr"])
         if t.endswith("forest"): case["root"] = None
+        # input representation
+        if case["root"] is not None and rng.random() < 0.15: case["rrep"] = "npint"
+        if case.get("excl_given") and t in ("edge", "face", "cell", "fforest"):
+            case["xrep"] = rng.choice(["set", "set", "frozenset", "list", "tuple", "ndarray"])
+        if t == "mst" and case["w"] in ("dict", "attr"):
+            case["wkind"] = rng.choice(["float", "int", "frac", "neg"] + (["npint"] if case["w"] == "dict" else []))
+        # histories on one object: compute() again / tree() again; other trees built on the same mesh before
+        if rng.random() < 0.2: case["hist"] = [rng.choice(["compute", "call"]) for _ in range(rng.choice([1, 1, 2]))]
+        if rng.random() < 0.15: case["pre"] = rng.randint(1, 3)
         yield case
         if tier != "quick" and i < 400 and nel <= 12 and not t.endswith("forest"):
             for r in range(nel):            # small scope: every root
@@ -93,6 +108,45 @@ def _trav(it):
     return ",".join(f"{int(x)}/{_fmt_opt(p)}" for x, p in it)
 
 
+def _excl_arg(case, ids):
+    import numpy as np
+    if not case.get("excl_given"): return None
+    rep = case.get("xrep", "set")
+    ids = sorted(ids)
+    if rep == "frozenset": return frozenset(ids)
+    if rep == "list": return list(ids)
+    if rep == "tuple": return tuple(ids)
+    if rep == "ndarray": return np.array(ids, dtype=np.int64)
+    return set(ids)
+
+
+def _mst_weight(a, b, case):
+    k = case.get("wkind", "float")
+    if k == "frac": return Fraction(H.hash_weight(a, b, case["wseed"], 9), 4)
+    if k == "neg": return Fraction(H.hash_weight(a, b, case["wseed"], 4) - 2)
+    return Fraction(H.hash_weight(a, b, case["wseed"], 4))
+
+
+def _history(case, obj):
+    """compute() / obj() again on the already computed object"""
+    for op in case.get("hist", []):
+        if op == "compute": obj.compute()
+        else: obj()
+
+
+def _pre_trees(case, m, T):
+    """other trees built on the same mesh object before the observed one (connectivity caches are then warm)"""
+    kind = case["mesh"]["kind"]
+    for i in range(case.get("pre", 0)):
+        try:
+            if i % 3 == 0: T.EdgeSpanningTree(m, 0, avoid_boundary=(i % 2 == 1))()
+            elif i % 3 == 1 and kind == "surface": T.FaceSpanningTree(m, 0)()
+            elif i % 3 == 1 and kind == "volume": T.CellSpanningTree(m, 0)()
+            else: T.EdgeMinimalSpanningTree(m, 0, weights="one")()
+        except Exception:  # noqa
+            pass
+
+
 def _run(case):
     key = json.dumps(case, sort_keys=True)
     if _CACHE.get("k") == key:
@@ -109,8 +163,11 @@ def _run(case):
     rnd = lambda a, b: a + case["rand"] % (b - a + 1)
     edge_sp.randint = face_sp.randint = cell_sp.randint = rnd
     try:
+        import numpy as np
+        _pre_trees(case, m, T)
         root = case["root"] if case["root"] is not None else case["rand"] % n
         out["root"] = root
+        root_arg = np.int64(case["root"]) if (case.get("rrep") == "npint" and case["root"] is not None) else case["root"]
         if t in ("edge", "eforest", "mst"):
             adj = [[(int(nv), int(conn.edge_id(v, nv))) for nv in conn.vertex_to_vertices(v)] for v in range(n)]
             excl_ids = set()
@@ -121,8 +178,8 @@ def _run(case):
                 border_ids = {e for e, (a, b) in enumerate(m.edges) if m.is_edge_on_border(a, b)}
             out["adj"], out["excl_ids"] = adj, sorted(excl_ids | border_ids)
             if t == "edge":
-                tree = T.EdgeSpanningTree(m, case["root"], avoid_boundary=case["avoid_boundary"],
-                                          avoid_edges=(set(excl_ids) if case.get("excl_given") else None))()
+                tree = T.EdgeSpanningTree(m, root_arg, avoid_boundary=case["avoid_boundary"],
+                                          avoid_edges=_excl_arg(case, excl_ids))()
             elif t == "mst":
                 edges = [(int(a), int(b)) for a, b in m.edges]
                 if case["w"] == "one": weights = "one"; wl = [Fraction(1)] * len(edges)
@@ -131,13 +188,15 @@ def _run(case):
                     el = M.attributes.edge_length(m, persistent=False)
                     wl = [Fraction(float(el[e])) for e in range(len(edges))]
                 else:
-                    wl = [Fraction(H.hash_weight(a, b, case["wseed"], 4)) for a, b in edges]
-                    if case["w"] == "dict": weights = {e: float(w) for e, w in enumerate(wl)}
+                    wl = [_mst_weight(a, b, case) for a, b in edges]
+                    kind = case.get("wkind", "float")
+                    conv = {"float": float, "frac": float, "neg": float, "int": int, "npint": lambda x: np.int64(int(x))}[kind]
+                    if case["w"] == "dict": weights = {e: conv(w) for e, w in enumerate(wl)}
                     else:
-                        weights = m.edges.create_attribute("w_c10", float, dense=(case["wseed"] % 2 == 0))
-                        for e, w in enumerate(wl): weights[e] = float(w)
+                        weights = m.edges.create_attribute("w_c10", int if kind == "int" else float, dense=(case["wseed"] % 2 == 0))
+                        for e, w in enumerate(wl): weights[e] = conv(w)
                 out["wedges"] = [(a, b, H.frac_str(w), 1 if e in border_ids else 0) for e, ((a, b), w) in enumerate(zip(edges, wl))]
-                tree = T.EdgeMinimalSpanningTree(m, case["root"], avoid_boundary=case["avoid_boundary"], weights=weights)()
+                tree = T.EdgeMinimalSpanningTree(m, root_arg, avoid_boundary=case["avoid_boundary"], weights=weights)()
             else:
                 forest = T.EdgeSpanningForest(m)()
         elif t in ("face", "fforest"):
@@ -151,8 +210,8 @@ def _run(case):
                 adj.append(l)
             excl_ids = {int(conn.edge_id(a, b)) for a, b in case["excl"]}
             out["adj"], out["excl_ids"] = adj, sorted(excl_ids)
-            arg = set(excl_ids) if case.get("excl_given") else None
-            if t == "face": tree = T.FaceSpanningTree(m, case["root"], arg)()
+            arg = _excl_arg(case, excl_ids)
+            if t == "face": tree = T.FaceSpanningTree(m, root_arg, arg)()
             else: forest = T.FaceSpanningForest(m, arg)()
         else:
             adj = []
@@ -164,8 +223,9 @@ def _run(case):
                 adj.append(l)
             excl_ids = {int(conn.face_id(*f)) for f in case["excl"]} if t == "cell" else set()
             out["adj"], out["excl_ids"] = adj, sorted(excl_ids)
-            if t == "cell": tree = T.CellSpanningTree(m, case["root"], set(excl_ids) if case.get("excl_given") else None)()
+            if t == "cell": tree = T.CellSpanningTree(m, root_arg, _excl_arg(case, excl_ids))()
             else: forest = T.CellSpanningForest(m)()
+        _history(case, forest if t.endswith("forest") else tree)
         if t.endswith("forest"):
             out["roots"] = [int(r) for r in forest.roots]
             out["trees"] = []
@@ -181,6 +241,8 @@ def _run(case):
             out["P"], out["C"], out["E"] = _canon_tree(tree, n, sort_children=(t == "mst"))
             out["T"] = _trav(tree.traverse("BFS"))
             out["S"] = _trav(tree.traverse("DFS"))
+            out["T2"] = _trav(tree.traverse("BFS"))      # a second traversal of the same tree
+            out["S2"] = _trav(tree.traverse("DFS"))
         out["r"] = "ok"
     except Exception as e:  # noqa
         out["r"] = H.exc_token(e); out["msg"] = str(e)[:100]
@@ -352,6 +414,20 @@ def _parse_trav(s):
 
 
 def oracle(case):
+    out = _oracle(case)
+    if case.get("hist"):
+        # a violation on an object whose compute() ran more than once gets its own structural key
+        bad = [f for f in out if "/raises/" not in f["key"]]
+        if bad:
+            clauses = sorted({f["key"].split("/", 2)[2] for f in bad})
+            out = [f for f in out if "/raises/" in f["key"]] + [{
+                "key": f"C10/{case['t']}/after-recompute",
+                "what": "after compute() ran again on the same object the tables violate: " + ", ".join(clauses),
+                "detail": bad[0]["what"] + " | " + str(bad[0].get("detail"))[:200]}]
+    return out
+
+
+def _oracle(case):
     out = []
     o = _run(case)
     t = case["t"]
@@ -388,6 +464,9 @@ def oracle(case):
         out.append({"key": f"C10/{t}/root", "what": "tree root is not the requested / drawn root", "detail": f"{o['tree_root']} {root}"})
     P, C, E = _parse_tree(o, n)
     T, S = _parse_trav(o["T"]), _parse_trav(o["S"])
+    if o["T2"] != o["T"] or o["S2"] != o["S"]:
+        out.append({"key": f"C10/{t}/traverse-not-repeatable", "what": "a second traversal of the same tree differs from the first",
+                    "detail": f"{o['T'][:80]} vs {o['T2'][:80]}"})
     if t != "mst":
         hops = H.bfs_hops(n, adm, root)
         _check_tree(t, n, root, P, C, E, T, S, adm, comp, hops, out)
@@ -397,7 +476,7 @@ def oracle(case):
     V = case["mesh"]["V"]
     if case["w"] == "one": wf = lambda a, b: Fraction(1)
     elif case["w"] == "length": wf = lambda a, b: Fraction(math.sqrt(float(H.sq_len(V, a, b))))
-    else: wf = lambda a, b: Fraction(H.hash_weight(a, b, case["wseed"], 4))
+    else: wf = lambda a, b: _mst_weight(a, b, case)
     admset = set(adm)
     F = lambda key, what, detail="": out.append({"key": f"C10/mst/{key}", "what": what, "detail": str(detail)[:300]})
     Ek = [H.key2(a, b) for a, b in E]
@@ -444,6 +523,11 @@ def classify(case, obs):
     if case["excl"]: ks.append("excl:nonempty")
     elif case.get("excl_given"): ks.append("excl:empty-set")
     if case["t"] == "mst": ks.append("w:" + case["w"])
+    if case.get("wkind"): ks.append("wkind:" + case["wkind"])
+    if case.get("rrep"): ks.append("root:npint")
+    if case.get("xrep"): ks.append("excl-container:" + case["xrep"])
+    if case.get("hist"): ks.append("history:recompute-x%d" % len(case["hist"]))
+    if case.get("pre"): ks.append("history:other-trees-before")
     if o["r"] == "ok" and not case["t"].endswith("forest"):
         reached = 1 + sum(1 for p in o["P"].split(",") if p != "N")
         ks.append("reach:" + ("all" if reached == o["n"] else "partial" if reached > 1 else "root-only"))
@@ -461,6 +545,13 @@ def describe(case):
 
 def shrink(case, still):
     c = dict(case)
+    for k in ("pre", "rrep", "xrep"):
+        if k in c:
+            trial = {kk: v for kk, v in c.items() if kk != k}
+            if still(trial): c = trial
+    if c.get("hist") and len(c["hist"]) > 1:
+        trial = dict(c, hist=c["hist"][:1])
+        if still(trial): c = trial
     ex = list(c["excl"])
     i = 0
     while i < len(ex):
@@ -474,7 +565,12 @@ def shrink(case, still):
 
 
 def search_on_break(rng, broken, mismatches):
-    return list(cases(rng, "quick"))[:150]
+    return list(cases(rng, "quick"))[:400]
+
+
+def translate():
+    from . import c10_translate
+    return c10_translate.translate()
 
 
 MANIFEST = {
